@@ -29,7 +29,11 @@ Refused(flags, twopl, stab) ==
 
 (* the criteria in increasing position order, extras kept with their criterion *)
 OrderOf(flags) ==
-    LET idx == SetToSortSeq(DOMAIN flags, LAMBDA i, j : flags[i].pos < flags[j].pos)
+    LET RECURSIVE ByPos(_)
+        ByPos(D) == IF D = {} THEN <<>>
+                    ELSE LET i == CHOOSE i \in D : \A j \in D : flags[i].pos <= flags[j].pos
+                         IN  <<i>> \o ByPos(D \ {i})
+        idx == ByPos(DOMAIN flags)
     IN  [k \in DOMAIN idx |-> [c |-> flags[idx[k]].c, x |-> flags[idx[k]].x]]
 
 (* --------------------------- Mech ------------------------------------- *)
